@@ -36,6 +36,8 @@ pub enum Val {
     /// token-index range of a `to_slice` / `e.slice()` result
     Slice(Pos, Pos),
     Tag(usize, Box<Val>),
+    /// a drop-tracked value (`FNew`, property C19); prints as `K`
+    Tracked(Tracked),
 }
 
 impl Val {
@@ -97,17 +99,132 @@ impl Val {
                 v.canon(out);
                 out.push(')');
             }
+            Val::Tracked(_) => out.push('K'),
         }
+    }
+
+    /// The number of tracked values reachable from this value (`O<n>` of the drop accounting).
+    pub fn tracked_count(&self) -> usize {
+        match self {
+            Val::Tracked(_) => 1,
+            Val::Pair(a, b) => a.tracked_count() + b.tracked_count(),
+            Val::List(l) => l.iter().map(Val::tracked_count).sum(),
+            Val::Opt(Some(v)) | Val::Tag(_, v) => v.tracked_count(),
+            _ => 0,
+        }
+    }
+}
+
+// ---------- drop accounting (FORMAT.md, version 3) ----------
+
+/// A value whose lifetime is observed: every instance (a clone is a new instance) has a unique id that is
+/// registered in a live-set on creation and removed on drop. Dropping an id that is not registered sets the
+/// double-drop flag. The accounting state is per thread (a worker runs its cases on one thread).
+#[derive(Debug)]
+pub struct Tracked {
+    id: u64,
+    /// the accounting period the value was created in (`track::reset` starts a new one); a value that
+    /// outlives its period (e.g. it was leaked, or is kept alive by a parser that is used again) is not
+    /// accounted to a later one
+    epoch: u64,
+}
+
+pub mod track {
+    use std::cell::{Cell, RefCell};
+    use std::collections::HashSet;
+
+    thread_local! {
+        static NEXT: Cell<u64> = const { Cell::new(0) };
+        static EPOCH: Cell<u64> = const { Cell::new(0) };
+        static LIVE: RefCell<HashSet<u64>> = RefCell::new(HashSet::new());
+        static DOUBLE: Cell<bool> = const { Cell::new(false) };
+        static OUT: Cell<usize> = const { Cell::new(0) };
+    }
+
+    /// Start a new accounting period: nothing live, no double drop, no output counted.
+    pub fn reset() {
+        EPOCH.with(|e| e.set(e.get() + 1));
+        LIVE.with(|l| l.borrow_mut().clear());
+        DOUBLE.with(|d| d.set(false));
+        OUT.with(|o| o.set(0));
+    }
+
+    pub(super) fn register() -> (u64, u64) {
+        let id = NEXT.with(|n| {
+            let id = n.get();
+            n.set(id + 1);
+            id
+        });
+        LIVE.with(|l| l.borrow_mut().insert(id));
+        (id, EPOCH.with(|e| e.get()))
+    }
+
+    pub(super) fn unregister(id: u64, epoch: u64) {
+        // (thread-local storage may be gone when a leaked value dies with its thread)
+        match EPOCH.try_with(|e| e.get()) {
+            Ok(cur) if cur == epoch => {}
+            _ => return,
+        }
+        if let Ok(false) = LIVE.try_with(|l| l.borrow_mut().remove(&id)) {
+            let _ = DOUBLE.try_with(|d| d.set(true));
+        }
+    }
+
+    /// Record the number of tracked values reachable from the output of the parse.
+    pub fn note_output(n: usize) {
+        OUT.with(|o| o.set(n));
+    }
+
+    /// Values still registered (leaks, once everything of the case has been dropped).
+    pub fn live() -> usize {
+        LIVE.with(|l| l.borrow().len())
+    }
+
+    pub fn double_drop() -> bool {
+        DOUBLE.with(|d| d.get())
+    }
+
+    /// ` L<live> D<0|1> O<n>`
+    pub fn suffix() -> String {
+        format!(" L{} D{} O{}", live(), double_drop() as u8, OUT.with(|o| o.get()))
+    }
+}
+
+impl Tracked {
+    #[allow(clippy::new_without_default)]
+    pub fn new() -> Tracked {
+        let (id, epoch) = track::register();
+        Tracked { id, epoch }
+    }
+}
+
+impl Clone for Tracked {
+    /// A clone is a new value.
+    fn clone(&self) -> Tracked {
+        Tracked::new()
+    }
+}
+
+impl Drop for Tracked {
+    fn drop(&mut self) {
+        track::unregister(self.id, self.epoch);
+    }
+}
+
+/// All tracked values print alike (`K`); they compare equal.
+impl PartialEq for Tracked {
+    fn eq(&self, _other: &Tracked) -> bool {
+        true
     }
 }
 
 // ---------- tokens ----------
 
-/// The token types of the input kinds: `char` (most kinds) and `u8` (`bytes`, `io`).
+/// The token types of the input kinds: `char` (most kinds), `u8` (`bytes`, `io`) and `TT` (`tree`, see input.rs).
 /// Everywhere outside the chumsky parsers themselves a token is its number.
-pub trait HTok: Copy + PartialEq + std::fmt::Debug + 'static {
+pub trait HTok: Clone + PartialEq + std::fmt::Debug + 'static {
     fn from_u32(n: u32) -> Option<Self>;
-    fn to_u32(self) -> u32;
+    fn to_u32(&self) -> u32;
     /// The tokens of an AST node (validated when the case was read).
     fn seq(ts: &[u32]) -> Vec<Self> {
         ts.iter().map(|&n| Self::from_u32(n).expect("token validated by ast::parse_case")).collect()
@@ -123,8 +240,8 @@ impl HTok for char {
     fn from_u32(n: u32) -> Option<char> {
         char::from_u32(n)
     }
-    fn to_u32(self) -> u32 {
-        self as u32
+    fn to_u32(&self) -> u32 {
+        *self as u32
     }
 }
 
@@ -132,8 +249,8 @@ impl HTok for u8 {
     fn from_u32(n: u32) -> Option<u8> {
         u8::try_from(n).ok()
     }
-    fn to_u32(self) -> u32 {
-        self as u32
+    fn to_u32(&self) -> u32 {
+        *self as u32
     }
 }
 
@@ -147,6 +264,8 @@ pub enum Fn1 {
     Fst,
     Snd,
     Dup,
+    /// `FNew`: drop the argument, return a fresh drop-tracked value
+    New,
 }
 
 #[derive(Clone, Debug, PartialEq)]
@@ -191,6 +310,10 @@ pub fn ap1(f: &Fn1, v: Val) -> Val {
             v => v,
         },
         Fn1::Dup => Val::pair(v.clone(), v),
+        Fn1::New => {
+            drop(v);
+            Val::Tracked(Tracked::new())
+        }
     }
 }
 
